@@ -5,6 +5,7 @@
 //   <bin> replay file...     run saved inputs, bypassing rapidcheck
 //   <bin> enum ...           (only harnesses that define an enumerator)
 #include "harness.h"
+#include <cerrno>
 
 #include <atomic>
 #include <chrono>
@@ -143,6 +144,7 @@ static Verdict run_one(const uint8_t* d, size_t n)
     g_cur_size = n;
     g_case_counter.fetch_add(1, std::memory_order_relaxed);
     g_rep.begin_case();
+    errno     = ambient_errno(d, n);
     Verdict v = run_case(d, n, g_rep);
     if (v.kind == Verdict::Fail && g_known.count(v.signature))
     {
